@@ -14,6 +14,41 @@ def stuckName : StuckReason → String
   | .variable => "variable" | .notFunction => "not-function" | .arithKind => "arith-kind"
   | .branchKind => "branch-kind" | .hole => "hole" | .divZero => "div-zero"
 
+
+def natsOfSx : Sx → Option (List Nat)
+  | .list xs => xs.mapM (fun x => match x with | .atom a => a.toNat? | _ => none)
+  | _ => none
+
+/-- classification table sent by the harness: flat list `cp flags cp flags ...`
+(flags: 1 alphabetic, 2 alphanumeric, 4 whitespace), grapheme ends: one per character. -/
+def mkCharClass (table : List Nat) (gends : List Nat) (text : List Char) : CharClass :=
+  let rec pairs : List Nat → List (Nat × Nat)
+    | a :: b :: r => (a, b) :: pairs r
+    | _ => []
+  let tbl := pairs table
+  let flag (c : Char) : Nat := match tbl.find? (fun p => p.1 == c.toNat) with
+    | some p => p.2 | none => 0
+  -- byte offset of each character
+  let offs := (text.foldl (fun (acc : List Nat × Nat) c => (acc.2 :: acc.1, acc.2 + c.utf8Size)) ([], 0)).1.reverse
+  let gmap := offs.zip gends
+  { isAlpha := fun c => flag c % 2 == 1
+    isAlnum := fun c => (flag c / 2) % 2 == 1
+    isWs := fun c => (flag c / 4) % 2 == 1
+    graphemeEnd := fun pos => match gmap.find? (fun p => p.1 == pos) with
+      | some p => p.2 | none => pos + 1 }
+
+def tokToString (t : Tok) : String :=
+  let payload := match t.kind with
+    | .identifier w => "[" ++ ".".intercalate (w.map (fun (c : Char) => toString c.toNat)) ++ "]"
+    | .integerLiteral n => "[" ++ toString n ++ "]"
+    | _ => ""
+  s!"{t.kind.tag}{payload}:{t.start}:{t.stop}"
+
+def lexToString : LexResult → String
+  | .ok ts => "ok" ++ String.join (ts.map (fun t => " " ++ tokToString t))
+  | .err rs => "err" ++ String.join (rs.map (fun r => s!" {r.1}:{r.2}"))
+  | .panic => "panic"
+
 def runOp (xs : List Sx) : String :=
   match xs with
   | [.atom "echo", t] =>
@@ -62,6 +97,12 @@ def runOp (xs : List Sx) : String :=
     match fuel.toNat?, tmOfSx t with
     | some n, some t => " ; ".intercalate ((evalTrace n t).map tmToString)
     | _, _ => "bad-op"
+  | [.atom "tok", cps, cls, gs] =>
+    match natsOfSx cps, natsOfSx cls, natsOfSx gs with
+    | some cps, some cls, some gs =>
+      let text := cps.map Char.ofNat
+      lexToString (tokenize (mkCharClass cls gs text) text)
+    | _, _, _ => "bad-op"
   | _ => "bad-op"
 
 partial def loop (h : IO.FS.Stream) (out : IO.FS.Stream) : IO Unit := do
